@@ -348,7 +348,7 @@ func bn254Subjects(r *Rng) []*subject {
 				out = append(out, bi.String())
 				w := f.New()
 				method(w, "SetString").Call([]reflect.Value{reflect.ValueOf(bi.String())})
-				out = append(out, w)
+				out = append(out, w.Interface())
 			}
 			return out
 		}})
